@@ -105,7 +105,11 @@ class CreateInsertExtractor(BaseExtractor):
                 continue
 
             if tgt_flag:
-                if segment.type in ["table_reference", "object_reference"]:
+                if segment.type in [
+                    "table_reference",
+                    "object_reference",
+                    "view_reference",
+                ]:
                     write_obj = SqlFluffTable.of(segment)
                     holder.add_write(write_obj)
                     # get target table columns from metadata if available
